@@ -17,10 +17,11 @@
 EXTENDS StoreCrash, Json, IOUtils
 Rec == ndJsonDeserialize(IOEnv.TRACE)
 VARIABLES l,      \* position in the trace
-          D,      \* header id -> descriptor
+          D,      \* header descriptors, D[id] (ids are handed out consecutively from 1)
           hist,   \* "op" events so far (operation i at index i+1; operation 0 = RedbStore::new on the fresh file)
+          habs,   \* the abstract state read from each of them (same indexing)
           cp      \* <<>> or <<crash event>> awaiting its "recovered"
-tvars == <<allvars, l, D, hist, cp>>
+tvars == <<allvars, l, D, hist, habs, cp>>
 Ev == Rec[l]
 
 ToSetOf(s) == {s[i] : i \in DOMAIN s}
@@ -29,9 +30,8 @@ ToSetOf(s) == {s[i] : i \in DOMAIN s}
 \* Long chains travel run-length encoded: st.byh is a sequence of <<first height, last height, id of
 \* the first header>> (ids ascend with the heights), st.byhash of <<first tag, last tag, id of the first
 \* header>>, st.hasat / st.has / st.metanone are range lists.
-RunIds(r)   == r[3]..(r[3] + (r[2] - r[1]))
-KnownIds(st) == /\ \A i \in DOMAIN st.byh : RunIds(st.byh[i]) \subseteq DOMAIN D
-                /\ \A i \in DOMAIN st.byhash : RunIds(st.byhash[i]) \subseteq DOMAIN D
+KnownIds(st) == /\ \A i \in DOMAIN st.byh : st.byh[i][3] >= 1 /\ st.byh[i][3] + (st.byh[i][2] - st.byh[i][1]) <= Len(D)
+                /\ \A i \in DOMAIN st.byhash : st.byhash[i][3] >= 1 /\ st.byhash[i][3] + (st.byhash[i][2] - st.byhash[i][1]) <= Len(D)
 RunAt(rs, x) == rs[CHOOSE i \in DOMAIN rs : rs[i][1] <= x /\ x <= rs[i][2]]
 IdAt(rs, x)  == RunAt(rs, x)[3] + (x - RunAt(rs, x)[1])
 \* the four tables as the queries show them: H = get_by_height, X = get_by_hash, R = the range queries, M = metadata
@@ -42,8 +42,7 @@ ImgOfProj(st) ==
      M |-> [h \in {st.meta[i][1] : i \in DOMAIN st.meta} |->
                ToSetOf(st.meta[CHOOSE i \in DOMAIN st.meta : st.meta[i][1] = h][2])]]
 \* the remaining queries agree with the tables
-QueriesAgree(st) ==
-    LET g == ImgOfProj(st) IN
+QueriesAgree(st, g) ==
     /\ CanonicalRanges(st.stored) /\ CanonicalRanges(st.sampled) /\ CanonicalRanges(st.pruned)
     /\ st.byh_bad = <<>>                              \* every header sits at its own height
     /\ SetOfRanges(st.hasat) = g.R.st
@@ -65,49 +64,47 @@ TOp ==
     /\ LET s == StateOf(ImgOfProj(Ev.st)) IN
        /\ hdr' = s.hdr /\ sampled' = s.sampled /\ pruned' = s.pruned /\ meta' = s.meta /\ res' = Ev.res
        /\ ackd' = s /\ infl' = <<>>
-    /\ hist' = Append(hist, Ev)
+    /\ hist' = Append(hist, Ev) /\ habs' = Append(habs, StateOf(ImgOfProj(Ev.st)))
     /\ UNCHANGED <<plan, file, cache, txc, root, D, cp>>
 TCrash ==
     /\ cp = <<>> /\ Ev.p >= hist[1].je
     /\ LET a == Acked(Ev.p) IN
-       /\ ackd' = StateOf(ImgOfProj(StAfter(a)))
-       /\ infl' = IF InFlight(Ev.p) THEN <<StateOf(ImgOfProj(StAfter(a + 1)))>> ELSE <<>>
+       /\ ackd' = habs[a + 1]
+       /\ infl' = IF InFlight(Ev.p) THEN <<habs[a + 2]>> ELSE <<>>
     /\ cp' = <<Ev>>
-    /\ UNCHANGED <<vars, plan, file, cache, txc, root, D, hist>>
-\* the verdict on one crash image
-RecOK ==
-    /\ Ev.ok = 1                                           \* reopening must succeed
-    /\ KnownIds(Ev.st)
-    /\ LET g == ImgOfProj(Ev.st)
-           a == Acked(cp[1].p) IN
-       /\ RecoveredOK(g, ackd, infl)                       \* C22
-       /\ QueriesAgree(Ev.st)
-       /\ Ev.st = StAfter(a) \/ (infl # <<>> /\ Ev.st = StAfter(a + 1))
+    /\ UNCHANGED <<vars, plan, file, cache, txc, root, D, hist, habs>>
+\* the verdict on one crash image (g: the recovered tables)
+RecOK(g) ==
+    LET a == Acked(cp[1].p) IN
+    /\ RecoveredOK(g, ackd, infl)                          \* C22
+    /\ QueriesAgree(Ev.st, g)
+    /\ Ev.st = StAfter(a) \/ (infl # <<>> /\ Ev.st = StAfter(a + 1))
 \* Crash images are independent of each other: a rejected one is reported (its position is printed,
 \* the driver reads the REJECTED lines) and validation goes on with the next, so that one finding
 \* cannot hide another in the same history.
 TRecovered ==
     /\ cp # <<>>
-    /\ IF RecOK
-       THEN LET g == ImgOfProj(Ev.st) IN
-            hdr' = g.H /\ sampled' = g.R.sa /\ pruned' = g.R.pr /\ meta' = g.M /\ res' = ROk
-       ELSE PrintT(<<"REJECTED", l>>) /\ UNCHANGED vars
+    /\ LET readable == Ev.ok = 1 /\ KnownIds(Ev.st)          \* reopening must succeed
+           g == ImgOfProj(Ev.st)
+       IN IF readable /\ RecOK(g)
+          THEN hdr' = g.H /\ sampled' = g.R.sa /\ pruned' = g.R.pr /\ meta' = g.M /\ res' = ROk
+          ELSE PrintT(<<"REJECTED", l>>) /\ UNCHANGED vars
     /\ cp' = <<>>
-    /\ UNCHANGED <<ackd, infl, plan, file, cache, txc, root, D, hist>>
+    /\ UNCHANGED <<ackd, infl, plan, file, cache, txc, root, D, hist, habs>>
 
 TStep ==
     /\ l <= Len(Rec) /\ l' = l + 1
     /\ LET n == Ev.name IN
        \/ n = "reset" /\ hdr' = <<>> /\ sampled' = {} /\ pruned' = {} /\ meta' = <<>> /\ res' = ROk
-                      /\ ackd' = Empty /\ infl' = <<>> /\ D' = <<>> /\ hist' = <<>> /\ cp' = <<>>
+                      /\ ackd' = Empty /\ infl' = <<>> /\ D' = <<>> /\ hist' = <<>> /\ habs' = <<>> /\ cp' = <<>>
                       /\ UNCHANGED <<plan, file, cache, txc, root>>
-       \/ n = "hdr"   /\ D' = [i \in (DOMAIN D) \cup {Ev.d.id} |-> IF i = Ev.d.id THEN Ev.d ELSE D[i]]
-                      /\ UNCHANGED <<allvars, hist, cp>>
+       \/ n = "hdr"   /\ Ev.d.id = Len(D) + 1 /\ D' = Append(D, Ev.d)
+                      /\ UNCHANGED <<allvars, hist, habs, cp>>
        \/ n = "op"        /\ TOp
        \/ n = "crash"     /\ TCrash
        \/ n = "recovered" /\ TRecovered
 
-TInit == CInit /\ l = 1 /\ D = <<>> /\ hist = <<>> /\ cp = <<>>
+TInit == CInit /\ l = 1 /\ D = <<>> /\ hist = <<>> /\ habs = <<>> /\ cp = <<>>
 TSpec == TInit /\ [][TStep]_tvars
 
 Accepted ==
